@@ -639,7 +639,7 @@ func (w *Walker) splitCall(fn *ssa.Function) (ssa.Instruction, []*ssa.Return) {
 				failing := false
 				switch sm.resKind {
 				case "error":
-					failing = isErrCtor(rt) || (rt.Key() != tNil.Key() && rt.Op != "phi")
+					failing = isErrCtor(rt) || (rt.Key() != tNil.Key() && rt.Op != "phi" && !(wrappedErr(rt) != nil && wrappedErr(rt).Key() == tNil.Key()))
 				case "bool":
 					failing = rt.Key() == tFalse.Key()
 				}
